@@ -37,13 +37,17 @@ COPY_INVARIANTS = ['CopyFaithful', 'CopyKeepsKinds', 'CopyRestoresDefined']
 # (a) copy
 
 def copy_mc(ctx, name, c, next_, timeout=900):
+    """-> TLCResult (counted by the caller: this runs in a helper thread)"""
     cfg = os.path.join(ctx.scratch, name + '.cfg')
     tlc.write_cfg(cfg, constants=sd.tla_consts(c), next_=next_, invariants=COPY_INVARIANTS + ['TidsStrictlyIncrease'], view='View')
-    return ctx.model_check('MCZRecoverCopy', cfg, name=name, timeout=timeout)
+    r = tlc.run('MCZRecoverCopy', cfg, workers=6, timeout=timeout)
+    if not r.ok:
+        raise tlc.TLCError('MCZRecoverCopy/%s: unexpected violation of %s\n%s' % (name, r.violation, r.output[-3000:]))
+    return r
 
 
 def copy_simulate(ctx, name, c, num, depth, seed, next_):
-    """behaviours of ZStorage with the copy invariants checked by TLC in every state"""
+    """behaviours of ZStorage with the copy invariants checked by TLC in every state -> (TLCResult, files)"""
     wd = os.path.join(ctx.scratch, 'sim-' + name)
     os.makedirs(wd, exist_ok=True)
     cfg = os.path.join(wd, name + '.cfg')
@@ -54,9 +58,7 @@ def copy_simulate(ctx, name, c, num, depth, seed, next_):
                 seed=seed, workers=1, timeout=900)
     if not r.ok:
         raise tlc.TLCError('simulation %s: %s\n%s' % (name, r.violation, r.output[-2000:]))
-    ctx.model['runs'].append(dict(r.summary(), name='simulate-' + name))
-    ctx.model['transitions'] += r.states_generated
-    return sorted(glob.glob(os.path.join(outdir, 'tr_*')))
+    return r, sorted(glob.glob(os.path.join(outdir, 'tr_*')))
 
 
 def copy_jobs(ctx, behs, kind, c, tag, opts=None):
@@ -67,6 +69,14 @@ def copy_jobs(ctx, behs, kind, c, tag, opts=None):
         o.setdefault('ranges', (i + ctx.seed) % 5 == 0)
         jobs.append((b, kind, c, os.path.join(ctx.scratch, 'cp-%s-%d' % (tag, i)), o))
     return jobs
+
+
+def where_of(detail):
+    """obs['lb'][0][33]['d']: spec=.. -> 'lb.d' (which column of the query table, without the indexes)"""
+    import re
+    head = detail.split(': ')[0]
+    names = re.findall(r"\['(\w+)'\]", head)
+    return '.'.join(names) if names else head[:40]
 
 
 def judge_copy(ctx, results, tag, cov):
@@ -85,17 +95,26 @@ def judge_copy(ctx, results, tag, cov):
             cov['actions'][a] = cov['actions'].get(a, 0) + n
         if r['source_failed']:
             f = r['source_failed']
-            ctx.violation({'part': 'copy', 'what': 'source-replay', 'action': f['action']},
+            ctx.violation({'part': 'copy', 'source': 'mapping' if tag.startswith('mapping') else 'file', 'what': 'source-replay', 'action': f['action']},
                           '[%s] the source storage diverges from ZStorage at step %d %s: %s (behaviour %s)' % (
                               tag, f['step'], f['action'], '; '.join(f['detail']), ' '.join(r['sig'][:40])),
                           replay={'tag': tag, 'prefix': r['sig']})
+        seen_here = set()
         for m in r['mismatch']:
             import re
-            where = re.sub(r'\[[^\]]*\]', '[]', m['detail'][0].split(':')[0])[:60]
-            ctx.violation({'part': 'copy', 'variant': m['variant'], 'what': m['where'], 'where': where},
-                          '[%s] copy (%s) differs from the source history: %s (behaviour %s)' % (
-                              tag, m['variant'], '; '.join(m['detail']), ' '.join(r['sig'][:60])),
-                          replay={'tag': tag, 'variant': m['variant'], 'prefix': r['sig']})
+            if m['where'].startswith('copy-raised'):
+                what, exc = m['where'].split(':')
+                sig = {'part': 'copy', 'source': 'mapping' if tag.startswith('mapping') else 'file', 'what': what, 'exc': exc.split('@')[0], 'at': exc.split('@')[1]}
+            else:
+                where = where_of(m['detail'][0])
+                sig = {'part': 'copy', 'source': 'mapping' if tag.startswith('mapping') else 'file', 'what': m['where'].replace('-reopened', ''), 'where': where}
+            key = repr(sorted(sig.items()))
+            if key in seen_here:          # the same divergence through another copy variant of the same history
+                continue
+            seen_here.add(key)
+            ctx.violation(sig, '[%s] copy (%s) differs from the source history: %s (behaviour %s)' % (
+                tag, m['variant'], '; '.join(m['detail']), ' '.join(r['sig'][:60])),
+                replay={'part': 'copy', 'tag': tag, 'variant': m['variant'], 'prefix': r['sig']})
 
 
 def copy_scripts(rng, n, noid=3):
@@ -131,33 +150,59 @@ def copy_scripts(rng, n, noid=3):
     return out
 
 
-def part_copy(ctx):
+BIG = dict(NOid=3, Metas=('m0', 'm1', 'm2'), MaxTxn=7, MaxRecs=3, MaxClock=3)
+PLAN = (('file', 'NextCommit', 'MCCls', 'NoRefs', {}), ('file', 'NextUndo', 'MCCls', 'NoRefs', {}),
+        ('file', 'NextPack', 'MCClsPlain', 'FewRefs', {}), ('mapping', 'NextCommit', 'MCClsPlain', 'NoRefs', {'variants': ('ctf', 'blobdest')}),
+        ('file', 'NextUndo', 'MCClsPlain', 'NoRefs', {'blobs': True, 'variants': ('ctf',)}),
+        ('file', 'NextPack', 'MCClsPlain', 'FewRefs', {'blobs': True, 'variants': ('ctf',)}))
+
+
+def plan_tag(kind, nxt, o):
+    return '%s-%s%s' % (kind, nxt, '-blobs' if o.get('blobs') else '')
+
+
+def copy_tlc_jobs(ctx):
+    """(name, callable) for every TLC run of part (a)"""
+    q = ctx.quick
+    mc = dict(NOid=2, MaxClock=2, Cls='MCClsPlain')
+    jobs = [('mc:copy-pack-2x2', lambda: copy_mc(ctx, 'copy-pack-2x2', sd.consts('file', MaxTxn=2, MaxRecs=2, AtomVals=('v1',), **mc), 'NextWithPack')),
+            ('mc:copy-undo-3x1', lambda: copy_mc(ctx, 'copy-undo-3x1', sd.consts('file', MaxTxn=3, MaxRecs=1, AtomVals=('v1', 'v2'), **mc), 'NextUndo'))]
+    if not q:
+        jobs += [('mc:copy-pack-3x1', lambda: copy_mc(ctx, 'copy-pack-3x1', sd.consts('file', MaxTxn=3, MaxRecs=1, AtomVals=('v1', 'v2'), **mc), 'NextWithPack', timeout=1800)),
+                 ('mc:copy-undo-4x1', lambda: copy_mc(ctx, 'copy-undo-4x1', sd.consts('file', MaxTxn=4, MaxRecs=1, AtomVals=('v1', 'v2'), **mc), 'NextUndo', timeout=1800))]
+    n = 60 if q else 1500
+    for k, (kind, nxt, cls, refs, o) in enumerate(PLAN):
+        c = sd.consts(kind, Cls=cls, RefSets=refs, **BIG)
+        tag = plan_tag(kind, nxt, o)
+        jobs.append(('sim:' + tag, (lambda tag=tag, c=c, k=k, nxt=nxt: copy_simulate(ctx, tag, c, num=n, depth=70, seed=ctx.seed + 171 + k, next_=nxt))))
+    return jobs
+
+
+def part_copy(ctx, done, replay=True):
     q = ctx.quick
     cov = {'behaviours': 0, 'copies': 0, 'nontrivial': 0, 'actions': {}, '_seen': set()}
-    mc = dict(NOid=2, MaxClock=2, Cls='MCClsPlain')
-    copy_mc(ctx, 'copy-pack-2x2', sd.consts('file', MaxTxn=2, MaxRecs=2, AtomVals=('v1',), **mc), 'NextWithPack')
-    copy_mc(ctx, 'copy-undo-3x1', sd.consts('file', MaxTxn=3, MaxRecs=1, AtomVals=('v1', 'v2'), **mc), 'NextUndo')
-    if not q:
-        copy_mc(ctx, 'copy-pack-3x1', sd.consts('file', MaxTxn=3, MaxRecs=1, AtomVals=('v1', 'v2'), **mc), 'NextWithPack', timeout=1800)
-        copy_mc(ctx, 'copy-undo-4x1', sd.consts('file', MaxTxn=4, MaxRecs=1, AtomVals=('v1', 'v2'), **mc), 'NextUndo', timeout=1800)
-    big = dict(NOid=3, Metas=('m0', 'm1', 'm2'), MaxTxn=7, MaxRecs=3, MaxClock=3)
-    n = 60 if q else 1500
-    jobs = []
-    plan = (('file', 'NextCommit', 'MCCls', 'NoRefs', {}), ('file', 'NextUndo', 'MCCls', 'NoRefs', {}),
-            ('file', 'NextPack', 'MCClsPlain', 'FewRefs', {}), ('mapping', 'NextCommit', 'MCClsPlain', 'NoRefs', {'variants': ('ctf', 'blobdest')}),
-            ('file', 'NextUndo', 'MCClsPlain', 'NoRefs', {'blobs': True, 'variants': ('ctf',)}),
-            ('file', 'NextPack', 'MCClsPlain', 'FewRefs', {'blobs': True, 'variants': ('ctf',)}))
-    tags = []
-    for k, (kind, nxt, cls, refs, o) in enumerate(plan):
-        c = sd.consts(kind, Cls=cls, RefSets=refs, **big)
-        tag = '%s-%s%s' % (kind, nxt, '-blobs' if o.get('blobs') else '')
-        files = copy_simulate(ctx, tag, c, num=n, depth=70, seed=ctx.seed + 171 + k, next_=nxt)
+    jobs, tags = [], []
+    sims, consts_of = {}, {}
+    for name, r in done.items():
+        if isinstance(name, str) and name.startswith('mc:'):
+            ctx.add_tlc(name[3:], r)
+    for k, (kind, nxt, cls, refs, o) in enumerate(PLAN):
+        c = sd.consts(kind, Cls=cls, RefSets=refs, **BIG)
+        tag = plan_tag(kind, nxt, o)
+        r, files = done['sim:' + tag]
+        ctx.model['runs'].append(dict(r.summary(), name='simulate-' + tag))
+        ctx.model['transitions'] += r.states_generated
         jobs += copy_jobs(ctx, files, kind, c, tag, o)
         tags += [tag] * len(files)
+        if kind == 'file' and not o.get('blobs'):
+            sims[tag], consts_of[tag] = files, c
     from ..drivers import scripts as sc
     scripts = copy_scripts(random.Random(ctx.seed * 7919 + 17), 40 if q else 600)
-    cs = sd.consts('file', **dict(big, MaxTxn=14, MaxRecs=5, MaxClock=8, Cls='MCClsPlain', RefSets='AllRefs'))
+    cs = sd.consts('file', **dict(BIG, MaxTxn=14, MaxRecs=5, MaxClock=8, Cls='MCClsPlain', RefSets='AllRefs'))
     behs = sc.evaluate(ctx, 'copy', scripts, cs)
+    sims['scripts'], consts_of['scripts'] = behs, cs
+    if not replay:
+        return None, sims, consts_of
     half = len(behs) // 2
     jobs += copy_jobs(ctx, behs[:half], 'file', cs, 'scripts')
     jobs += copy_jobs(ctx, behs[half:], 'file', cs, 'scripts-blobs', {'blobs': True, 'variants': ('ctf',)})
@@ -173,19 +218,295 @@ def part_copy(ctx):
     for need in ('with_back', 'with_zero', 'with_packed', 'with_blobrecs'):
         if not cov.get(need):
             raise RuntimeError('vacuous: no copied history %s' % need.replace('_', ' '))
+    return cov, sims, consts_of
+
+
+# ----------------------------------------------------------------------------------------------------
+# (c) scan()
+
+SCAN_INV = ['TypeOK', 'ScanForward', 'ScanAfterDot']
+
+
+def scan_configs(q):
+    small = dict(CHUNK=12, LOOK=8, Near=100, Extra='{}', Fills='{"zero", "ff"}', Starts='{0, 4, 11}')
+    real = dict(CHUNK=8096, LOOK=8, Extra='{46, 47}', Fills='{"zero", "ff"}', Starts='{4, 8090}')
+    if q:
+        return [('small', dict(small, Lens='{0, 3, 8, 9, 10, 12, 13, 17, 20, 21, 24, 25, 29}', MaxDots=2)),
+                ('real', dict(real, Lens='{8095, 8097, 8105, 16200, 16210}', Near=9, MaxDots=1)),
+                ('real2', dict(real, Lens='{8100, 8109, 16201}', Near=2, MaxDots=2))]
+    return [('small', dict(small, Lens='0..30', MaxDots=2)),
+            ('small3', dict(small, Lens='{9, 13, 21, 25}', MaxDots=3)),
+            ('real', dict(real, Lens='{8095, 8096, 8097, 8105, 16200, 16210, 24300}', Near=12, MaxDots=1)),
+            ('real2', dict(real, Lens='{8100, 8104, 8109, 16201}', Near=9, MaxDots=2))]
+
+
+def scan_tlc(ctx, name, c, as_code, graph=False):
+    """-> (TLCResult, path of the dumped graph | None).  The graph of the transcription as the code is comes from a
+    run without the liveness property (TLC stops at the first lasso, before the graph is complete)."""
+    wd = os.path.join(ctx.scratch, 'scan-%s-%s%s' % (name, 'code' if as_code else 'fixed', '-graph' if graph else ''))
+    os.makedirs(wd, exist_ok=True)
+    cfg = os.path.join(wd, 'scan.cfg')
+    live = not (as_code and graph)
+    tlc.write_cfg(cfg, constants=dict(c, AsCode='TRUE' if as_code else 'FALSE'), spec='Spec', invariants=SCAN_INV,
+                  properties=['Terminates'] if live else [])
+    dot = os.path.join(wd, 'g.dot') if (graph or not as_code) else None
+    r = rv.run_tlc('ZRecoverScan', cfg, wd, workers=4, dump=dot, timeout=900)
+    return r, dot
+
+
+def kind_of(x):
+    return x if isinstance(x, str) and x == 'hang' else 'raised' if isinstance(x, str) else 'eof' if x == 0 else 'found'
+
+
+def part_scan(ctx, runs):
+    cov = {'patterns': 0, 'hang': 0, 'found': 0, 'eof': 0, 'configs': {}}
+    # 1. the repaired transcription terminates; the transcription of the code as it is does not (F5): TLC's lasso
+    lasso = None
+    for (name, as_code, graph), (c, (r, dot)) in sorted(runs.items()):
+        ctx.add_tlc('scan-%s-%s%s' % (name, 'as-code' if as_code else 'repaired', '-graph' if graph else ''), r)
+        if graph:
+            if not r.ok:
+                raise tlc.TLCError('ZRecoverScan (graph) %s: %s\n%s' % (name, r.violation, r.output[-2000:]))
+        elif not as_code:
+            if not r.ok:
+                raise tlc.TLCError('ZRecoverScan (repaired) %s: %s\n%s' % (name, r.violation, r.output[-2000:]))
+        else:
+            if r.violation != 'Terminates' or r.back_to is None:
+                raise tlc.TLCError('ZRecoverScan (as the code is) %s: expected a lasso violating Terminates, got %s\n%s' % (
+                    name, r.violation, r.output[-2000:]))
+            if lasso is None or name == 'small':
+                st = rv.norm(r.trace[0]['state'])
+                lasso = (name, c, {'n': st['n'], 'fill': st['fill'], 'dots': sorted(st['dots']), 'start': st['start'],
+                                   'loop': [(rv.norm(x['state'])['pos'], rv.norm(x['state'])['phase']) for x in r.trace[r.back_to - 1:]]})
+    # 2. the lasso on the real scan(): a file on disk with the model's dot / fill pattern
+    name, c, L = lasso
+    got = rv.real_scan(rv.pattern_bytes(L['n'], L['fill'], L['dots']), L['start'], c['CHUNK'], on_disk=os.path.join(ctx.scratch, 'lasso.bin'))
+    as_code = got == 'hang'
+    cov['lasso'] = dict(L, config=name, real_scan=got)
+    if as_code:
+        ctx.violation({'tool': 'fsrecover', 'what': 'hang', 'dot_in_last_8': any(d >= L['n'] - 8 for d in L['dots'])},
+                      'fsrecover.scan does not terminate: TLC lasso of ZRecoverScan (AsCode) confirmed on the real scan(): file of %d '
+                      'bytes (fill %s) with \'.\' at %s, scan from %d never returns (loop %s)' % (L['n'], L['fill'], L['dots'], L['start'], L['loop']),
+                      replay={'part': 'scan', 'pattern': L, 'chunk': c['CHUNK']})
+    # 3. conformance: every pattern of every configuration, against the model of this tree
+    jobs, meta = [], []
+    for (name, ac, graph), (c, (r, dot)) in sorted(runs.items()):
+        if dot is None:
+            continue
+        if ac != as_code:
+            os.remove(dot)
+            continue
+        table, nodes = rv.load_scan_graph(dot)
+        os.remove(dot)
+        if nodes != r.distinct:
+            raise RuntimeError('scan graph %s: %d states dumped, TLC reports %d' % (name, nodes, r.distinct))
+        cases = [(k[0], k[1], k[2], k[3], v) for k, v in sorted(table.items())]
+        if len(cases) < 100:
+            raise RuntimeError('scan graph %s: only %d initial states' % (name, len(cases)))
+        cov['configs'][name] = {'patterns': len(cases), 'states': r.distinct, 'chunk': c['CHUNK']}
+        for j, ch in enumerate(par.chunks(cases, 32)):
+            jobs.append((ch, c['CHUNK'], os.path.join(ctx.scratch, 'scanrp-%s-%d' % (name, j))))
+            meta.append(name)
+    results = par.pmap(rv.scan_replay, jobs)
+    for name, r in zip(meta, results):
+        cov['patterns'] += r['n']
+        cov['hang'] += r['hangs']
+        cov['found'] += r['found']
+        cov['eof'] += r['eof']
+        for m in r['mismatch']:
+            if m['impl'] == 'hang':
+                sig = {'tool': 'fsrecover', 'what': 'hang', 'dot_in_last_8': any(d >= m['n'] - 8 for d in m['dots'])}
+            else:
+                ks, ki = kind_of(m['spec']), kind_of(m['impl'])
+                sig = {'tool': 'fsrecover', 'what': 'scan-result', 'spec': ks, 'impl': ki if ki != ks else ki + '-elsewhere'}
+            ctx.violation(sig, 'fsrecover.scan differs from its transcription (%s, AsCode=%s): file of %d bytes (fill %s) with \'.\' at %s, '
+                          'scan from %d: spec %s, real %s' % (name, as_code, m['n'], m['fill'], m['dots'], m['start'], m['spec'], m['impl']),
+                          replay={'part': 'scan', 'pattern': m})
+    cov['as_code'] = as_code
+    if not (cov['found'] and cov['eof']):
+        raise RuntimeError('vacuous scan replay: %r' % cov)
     return cov
 
 
+# ----------------------------------------------------------------------------------------------------
+# (b) fsrecover
+
+TOOL_REAL = {'MAGIC': 4, 'FH': 23, 'LENOFF': 8, 'LENSZ': 8, 'TR': 8}
+TOOL_INV = ['TTypeOK', 'OutputOK', 'PrefixOK', 'IdenticalOK']
+
+
+def tool_mc(ctx):
+    cfg = os.path.join(ctx.scratch, 'tool-mc.cfg')
+    tlc.write_cfg(cfg, constants={'Files': '<- MCFiles', 'MAGIC': 1, 'FH': 3, 'LENOFF': 1, 'LENSZ': 1, 'TR': 1}, spec='TSpec',
+                  invariants=TOOL_INV, properties=['Terminates'])
+    r = rv.run_tlc('MCZRecoverTool', cfg, os.path.join(ctx.scratch, 'tool-mc'), workers=4, timeout=900)
+    if not r.ok:
+        raise tlc.TLCError('ZRecoverTool: %s\n%s' % (r.violation, r.output[-3000:]))
+    return r
+
+
+def validate_runs(ctx, name, files, runs):
+    """one TLC run of ZRecoverTrace over a batch of recorded runs -> {run number: (verdict, at, why)}"""
+    import json
+    wd = os.path.join(ctx.scratch, 'trace-' + name)
+    os.makedirs(wd, exist_ok=True)
+    tf = os.path.join(wd, 'runs.json')
+    with open(tf, 'w') as f:
+        json.dump({'files': files, 'runs': runs}, f)
+    cfg = os.path.join(wd, 'trace.cfg')
+    tlc.write_cfg(cfg, constants=dict(TOOL_REAL, Files='{}'), init='TrInit', next_='TrNext')
+    r = tlc.run('ZRecoverTrace', cfg, workdir=wd, workers=2, timeout=1500, env={'TRACE_FILE': tf})
+    if not r.ok:
+        raise tlc.TLCError('trace validation %s: %s\n%s' % (name, r.violation, r.output[-3000:]))
+    verdicts = {}
+    for v in tlc.printed_values(r.output):
+        if len(v) == 5 and v[0] == 'V':
+            verdicts[v[1]] = (v[2], v[3], v[4])
+    if len(verdicts) != len(runs):
+        raise tlc.TLCError('trace validation %s: %d verdicts for %d runs\n%s' % (name, len(verdicts), len(runs), r.output[-2000:]))
+    os.remove(tf)
+    return r, verdicts
+
+
+def dmg_text(d):
+    return 'undamaged' if d[0] == 'none' else 'truncated at %d' % d[1] if d[0] == 'cut' else 'bytes [%d, %d) overwritten with %s' % (d[1], d[2], d[3])
+
+
+def part_recover(ctx, sim_files, consts_of):
+    q = ctx.quick
+    rng = random.Random(ctx.seed * 104729 + 5)
+    # 1. data files from TLC histories (undo records, un-creations, packed prefixes; some spread over several read chunks)
+    want = 6 if q else 14
+    cand = []
+    for tag, files in sim_files.items():
+        fs = list(files)
+        rng.shuffle(fs)
+        cand += [(f, tag) for f in fs[:want * 3]]
+    rng.shuffle(cand)
+    jobs = []
+    for i, (f, tag) in enumerate(cand):
+        jobs.append((f, consts_of[tag], os.path.join(ctx.scratch, 'src-%d' % i), {'pad': (0, 0, 3000, 9000)[i % 4], 'min_txns': 3}))
+    built = [b for b in par.pmap(rv.build_source, jobs, chunksize=2) if b is not None and 'failed' not in b]
+    # variety first: undo back-pointers, un-creations, packed prefixes, files longer than one read chunk, short files
+    feats = (lambda b: b['backs'] > 0, lambda b: b['packed'] > 0, lambda b: len(b['data']) > 9000, lambda b: b['zeros'] > 0,
+             lambda b: len(b['data']) <= 2500 and b['ntx'] >= 4, lambda b: b['backs'] > 1 and len(b['data']) > 9000)
+    sources = []
+    while len(sources) < want and built:
+        f = feats[len(sources) % len(feats)]
+        pick = next((b for b in built if f(b)), built[0])
+        built.remove(pick)
+        sources.append(pick)
+    if len(sources) < min(want, 3):
+        raise RuntimeError('only %d usable source files' % len(sources))
+    # 2. damages, enumerated relative to the item boundaries of each file
+    jobs, files = [], []
+    total = 0
+    for i, b in enumerate(sources):
+        txns = rv.parse_fs(b['data'])
+        files.append(rv.extents(txns))
+        every = (not q) and len(b['data']) <= 2500
+        dm = rv.enumerate_damages(txns, len(b['data']), every, rng, budget=700 if q else 6000)
+        total += len(dm)
+        model = (b['obs'], b['hist'], b['consts'])
+        for j, ch in enumerate(par.chunks(dm, max(1, len(dm) // 40))):
+            jobs.append((i, b['data'], ch, os.path.join(ctx.scratch, 'rec-%d-%d' % (i, j)), ctx.seed, model))
+    results = [r for rs in par.pmap(rv.recover_cases, jobs) for r in rs]
+    # 3. TLC validates every recorded run against ZRecoverTool and judges its output
+    cov = {'files': len(sources), 'runs': len(results), 'hangs': 0, 'crashes': 0, 'altered_outputs': 0, 'with_scan': 0, 'accepted': 0,
+           'file_sizes': [len(b['data']) for b in sources], 'file_txns': [b['ntx'] for b in sources],
+           'files_with_backpointers': sum(1 for b in sources if b['backs']), 'files_packed': sum(1 for b in sources if b['packed']),
+           'files_with_uncreation': sum(1 for b in sources if b['zeros']),
+           'by_kind': {}, 'every_byte_files': sum(1 for b in sources if (not q) and len(b['data']) <= 2500)}
+    batches = par.chunks(list(range(len(results))), max(1, len(results) // 20000 + 1))
+    for bi, idx in enumerate(batches):
+        r, verdicts = validate_runs(ctx, 'b%d' % bi, files, [results[i]['run'] for i in idx])
+        ctx.add_tlc('recover-trace-validation-%d' % bi, r)
+        for n, i in enumerate(idx):
+            res = results[i]
+            v, at, why = verdicts[n + 1]
+            kind = res['dmg'][0] if res['dmg'][0] != 'fill' else 'fill-' + res['dmg'][3]
+            cov['by_kind'][kind] = cov['by_kind'].get(kind, 0) + 1
+            cov['hangs'] += res['how'] == 'hang'
+            cov['crashes'] += res['how'].startswith('crash')
+            cov['altered_outputs'] += res['altered'] > 0
+            cov['with_scan'] += res['scans'] > 0
+            if res['table']:
+                ctx.violation({'tool': 'fsrecover', 'what': 'undamaged-recovery-differs', 'where': where_of(res['table'][0])},
+                              'recovery of the undamaged file %d answers differently from the table TLC printed: %s (history %s)' % (
+                                  res['run']['f'], '; '.join(res['table'][:3]), ' '.join(sources[res['run']['f'] - 1]['sig'][:50])),
+                              replay={'part': 'recover', 'history': sources[res['run']['f'] - 1]['sig'], 'damage': res['dmg']})
+            if v == 'accept':
+                cov['accepted'] += 1
+                continue
+            if why in ('hang', 'scan-hang'):
+                sig = {'tool': 'fsrecover', 'what': 'hang', 'dot_in_last_8': bool(res['dot8'])}
+            else:
+                sig = {'tool': 'fsrecover', 'what': why, 'damage': 'none' if res['dmg'][0] == 'none' else 'truncation' if res['dmg'][0] == 'cut' else 'bytes'}
+            ev = res['run']['ev']
+            ctx.violation(sig, 'fsrecover.recover on file %d (%d bytes, %d transactions), %s: ZRecoverTrace rejects the run at event %d (%s): %s; '
+                          'ended by %s; events %s' % (res['run']['f'], len(sources[res['run']['f'] - 1]['data']), sources[res['run']['f'] - 1]['ntx'],
+                                                      dmg_text(res['dmg']), at, why, _ev_text(ev[at - 1]) if 0 < at <= len(ev) else '-',
+                                                      res['how'], ' '.join(_ev_text(e) for e in ev[:40])),
+                          replay={'part': 'recover', 'history': sources[res['run']['f'] - 1]['sig'], 'damage': res['dmg'], 'seed': ctx.seed})
+    cov['sample'] = {'damage': dmg_text(results[len(results) // 2]['dmg']), 'events': [_ev_text(e) for e in results[len(results) // 2]['run']['ev']]}
+    if not (cov['with_scan'] and cov['altered_outputs'] and cov['by_kind'].get('none')):
+        raise RuntimeError('vacuous recovery runs: %r' % cov)
+    return cov
+
+
+def _ev_text(e):
+    if e['k'] == 'hdr':
+        return 'hdr@%d:%s' % (e['p'], e['r']) + ('->%d(id %d)' % (e['q'], e['t']) if e['r'] in ('ok', 'undone') else '')
+    if e['k'] == 'scan':
+        return 'scan@%d->%d' % (e['p'], e['q'])
+    if e['k'] == 'copy':
+        return 'copy(%s)' % ('same' if e['same'] else 'altered')
+    return e['k']
+
+
 def run(ctx):
+    from concurrent.futures import ThreadPoolExecutor
     clock.install()
-    cov_a = part_copy(ctx)
-    ev = cov_a['behaviours']
+    # every TLC run that needs only the specifications is started at once (helper threads; all joined before
+    # the replay workers are forked)
+    jobs = copy_tlc_jobs(ctx) + [('tool-mc', lambda: tool_mc(ctx))]
+    for name, c in scan_configs(ctx.quick):
+        for ac, graph in ((False, False), (True, False), (True, True)):
+            jobs.append((('scan', name, ac, graph), (lambda name=name, c=c, ac=ac, graph=graph: (c, scan_tlc(ctx, name, c, ac, graph)))))
+    with ThreadPoolExecutor(max_workers=8 if ctx.quick else 6) as ex:
+        futs = [(name, ex.submit(fn)) for name, fn in jobs]
+        done = {name: f.result() for name, f in futs}
+    ctx.add_tlc('recover-tool-loop', done['tool-mc'])
+    parts = os.environ.get('ZV_C17_PARTS', 'abc')          # developer knob: run only some parts (never a verdict: exit 2)
+    cov_a, sims, consts_of = part_copy(ctx, done, replay='a' in parts)
+    cov_c = part_scan(ctx, {k[1:]: v for k, v in done.items() if isinstance(k, tuple)}) if 'c' in parts else None
+    cov_b = part_recover(ctx, sims, consts_of) if 'b' in parts else None
+    if parts != 'abc':
+        ctx.finish({'evaluations': 0, 'samples': ['partial run'], 'states': 1, 'transitions': 1, 'traces_validated_against_impl': 0,
+                    'partial': {'copy': cov_a, 'recover': cov_b, 'scan': cov_c}}, ['partial developer run'])
+        raise RuntimeError('partial run (ZV_C17_PARTS=%s): not a verdict' % parts)
+    ev = cov_a['behaviours'] + cov_b['runs'] + cov_c['patterns']
     return ctx.finish({
         'evaluations': ev,
-        'distinct_nontrivial': cov_a['nontrivial'],
-        'rule': 'TBD',
+        'distinct_nontrivial': cov_a['nontrivial'] + cov_b['with_scan'] + cov_c['found'] + cov_c['hang'],
+        'rule': '(a) TLC behaviours of ZStorage (commit-, undo-, pack-heavy simulation with the copy invariants checked in every state, '
+                'directed scenarios evaluated by TLC, half of them with blob records) replayed on a real source storage, copied '
+                '(copyTransactionsFrom, BaseStorage.copy, into a blob-enabled FileStorage, blob storage to blob storage, MappingStorage to '
+                'FileStorage) and the full query table of the copy, before and after reopen, compared with the table TLC printed; distinct '
+                'by action sequence, non-trivial = at least 2 committed transactions.  (b) data files of TLC histories damaged at positions '
+                'enumerated relative to item boundaries (quick) / at every byte (thorough), fsrecover.recover run under watchdogs with its '
+                'calls recorded, every recorded run validated by TLC against ZRecoverTool and its output judged (ZRecoverTrace); non-trivial '
+                '= the run needed scan().  (c) every dot/fill pattern of the ZRecoverScan configurations replayed on the real scan(); '
+                'non-trivial = scan found a position or does not terminate',
         'traces_validated_against_impl': ev,
-        'copy': cov_a,
-        'samples': [cov_a['sample']],
+        'copy': cov_a, 'recover': cov_b, 'scan': cov_c,
+        'samples': [cov_a['sample'], cov_b['sample'], cov_c['lasso']],
         'exhaustive': False,
-    }, ASSUME)
+    }, ASSUME + ['(b) A1: a transaction whose length field or redundant length is damaged never passes the header checks; A2: no position '
+                 'other than a transaction boundary passes them (both would show as a rejected run, not be hidden)',
+                 '(b) a transaction is exempt from "unchanged" when the damaged range meets its own bytes or the bytes of an earlier record '
+                 'its back-pointers lead through; bytes the fill did not change are not damaged; an abnormal end of the tool while it '
+                 'handles damaged bytes counts as an end (counted as crashes)',
+                 '(b) single damaged range or truncation per run; fills 0x00, 0xff, \'.\', seeded noise',
+                 '(c) files are one fill byte (0x00 / 0xff) plus dots; scaled-down CHUNK configurations hand scan() a file object whose '
+                 'read returns at most CHUNK bytes; hang = a third read at an unchanged position, more reads than bytes, or 10 s'])
